@@ -1112,6 +1112,46 @@ func predicateEdges(f *ssa.Function, pass []Lit) (cut map[Edge]bool, perLit []in
 				if isC, eq := matches(e); isC && eq != want {
 					return
 				}
+				// a short-circuit expression returned as it is (`return a || x == y`): go/ssa
+				// makes it a phi of boolean constants and the last operand; the outcome `want`
+				// arrives only through the phi edges that do not carry the opposite constant,
+				// and through an operand edge it asserts that operand
+				if phi, isPhi := Strip(e).(*ssa.Phi); isPhi && konst == nil {
+					covered, any := true, false
+					for _, pe := range phi.Edges {
+						if isC, eq := matches(pe); isC {
+							if eq == want {
+								covered = false // this constant outcome needs a gate on its path
+							}
+							continue
+						}
+						ec, eneg := StripNot(pe)
+						hit := false
+						for li, l := range pass {
+							onT, onF := l.A.Match(ec)
+							if eneg {
+								onT, onF = onF, onT
+							}
+							w := onT
+							if !want {
+								w = onF
+							}
+							if w != 0 && (w > 0) == l.Want {
+								exprLits[li]++
+								hit = true
+								break
+							}
+						}
+						if !hit {
+							covered = false
+						}
+						any = any || hit
+					}
+					if covered && any {
+						nExpr++
+						return
+					}
+				}
 				// a boolean expression returned as it is (`return id, table.Get(id) != nil`):
 				// the outcome asserts that expression
 				if konst == nil {
